@@ -362,11 +362,14 @@ def drv_fit(ctx, k_, rng):
         mon = "reference.parameters"
         ctx.seen(mon)
         pa, pb = list(hedger.parameters()), list(ref.parameters())
-        same = len(pa) == len(pb) and all(a.shape == b.shape and bool(((a == b) | (torch.isnan(a) & torch.isnan(b))).all()) for a, b in zip(pa, pb))
-        if any(bool(torch.isnan(a).any()) for a in pa) or (isinstance(hist, list) and any(h_ != h_ for h_ in hist)):
+        lz = torch.nn.parameter.is_lazy
+        # (a lazy model fitted for zero epochs is still uninitialised on both sides)
+        same = len(pa) == len(pb) and all((lz(a) and lz(b)) or (not lz(a) and not lz(b) and a.shape == b.shape and bool(((a == b) | (torch.isnan(a) & torch.isnan(b))).all()))
+                                          for a, b in zip(pa, pb))
+        if any((not lz(a)) and bool(torch.isnan(a).any()) for a in pa) or (isinstance(hist, list) and any(h_ != h_ for h_ in hist)):
             ctx.branch("loss.non_finite")
         if not same:
-            worst = max((float((a - b).abs().max()) for a, b in zip(pa, pb) if a.shape == b.shape), default=float("nan"))
+            worst = max((float((a - b).abs().max()) for a, b in zip(pa, pb) if not lz(a) and not lz(b) and a.shape == b.shape), default=float("nan"))
             ctx.violation(mon, "parameters_differ", f"parameters after fit() call #{ci + 1} differ from the explicit simulate/loss/backward/step loop under the same "
                           f"seed (max |diff| {worst!r}; n_epochs={kc}, optimiser {opt_kind}, model {mk}, stale grads {stale}, verbose={verbose}, validation={v})",
                           sig=sig, max_abs_diff=worst, call=ci + 1)
